@@ -1285,6 +1285,12 @@ def m_numint_div(ex, m, args, callee):
     a, b = val(args[0]), val(args[1])
     if not ex.branch(b_not(n_eq(b, 0)), 'bigint divisor != 0'):
         ex.panic('attempt to divide by zero (BigInt)')
+    if is_z3(a) and is_z3(b) and m.group(3) == 'div':
+        # identity: numer(v) / denom(v) (truncating) = trunc(v)  -- keeps the term linear in v
+        qa = ex.memo.get(('partof', a.get_id()))
+        qb = ex.memo.get(('partof', b.get_id()))
+        if qa and qb and qa[1] == 'n' and qb[1] == 'd' and qa[0].get_id() == qb[0].get_id():
+            return r_trunc(qa[0])
     return i_tdiv(a, b) if m.group(3) == 'div' else i_trem(a, b)
 
 
@@ -1905,3 +1911,110 @@ def SliceView(r, s, e):
     """a sub-slice: materialised as an Arr of the same element objects (shared, not copied)"""
     v = load(r)
     return Arr(v.fields[s:e])
+
+
+# ============================================================================= chrono (documented contract, 0.4.38)
+# TimeDelta  = Int nanoseconds, |t| <= i64::MAX milliseconds
+# DateTime<Tz> = Struct('DateTime', [instant_ns, offset_token]); instants range over [DT_MIN, DT_MAX] (abstract bounds)
+
+TD_MAX_NS = (2 ** 63 - 1) * 10 ** 6
+DT_MIN = z3.Int('chrono_DT_MIN_ns')
+DT_MAX = z3.Int('chrono_DT_MAX_ns')
+
+
+def dt_bounds_axioms():
+    return [DT_MIN <= -10 ** 18, DT_MAX >= 10 ** 18]
+
+
+def td_in_range(t):
+    if is_conc(t):
+        return -TD_MAX_NS <= t <= TD_MAX_NS
+    return simp(z3.And(zint(t) >= -TD_MAX_NS, zint(t) <= TD_MAX_NS))
+
+
+@model(r'^TimeDelta::(milliseconds|nanoseconds|seconds|microseconds)$')
+def m_td_new(ex, m, args, callee):
+    k = m.group(1)
+    v = args[0]
+    scale = {'milliseconds': 10 ** 6, 'nanoseconds': 1, 'seconds': 10 ** 9, 'microseconds': 1000}[k]
+    t = n_mul(v, scale)
+    if k in ('milliseconds', 'seconds'):
+        if not ex.branch(td_in_range(t), 'TimeDelta::%s in range' % k):
+            ex.panic('TimeDelta::%s out of bounds' % k)
+    return t
+
+
+@model(r'^<TimeDelta as (Add|Sub)(<.*>)?>::(add|sub)$')
+def m_td_arith(ex, m, args, callee):
+    a, b = val(args[0]), val(args[1])
+    r = n_add(a, b) if m.group(3) == 'add' else n_sub(a, b)
+    if not ex.branch(td_in_range(r), 'TimeDelta %s in range' % m.group(3)):
+        ex.panic('`TimeDelta %s TimeDelta` overflowed' % ('+' if m.group(3) == 'add' else '-'))
+    return r
+
+
+@model(r'^TimeDelta::(num_milliseconds|num_nanoseconds|num_seconds|subsec_nanos)$')
+def m_td_get(ex, m, args, callee):
+    t = val(args[0])
+    k = m.group(1)
+    if k == 'num_milliseconds':
+        return i_tdiv(t, 10 ** 6)
+    if k == 'num_seconds':
+        return i_tdiv(t, 10 ** 9)
+    if k == 'subsec_nanos':
+        return i_trem(t, 10 ** 9)
+    if ex.branch(in_range(t, 'i64'), 'num_nanoseconds fits i64'):
+        return some(ex, t)
+    return none(ex)
+
+
+def mk_datetime(instant, offset):
+    return Struct('DateTime', [instant, offset])
+
+
+def dt_in_range(i):
+    return simp(z3.And(zint(i) >= DT_MIN, zint(i) <= DT_MAX))
+
+
+@model(r'^DateTime::(checked_add_signed|checked_sub_signed)$')
+def m_dt_checked(ex, m, args, callee):
+    d = val(args[0])
+    t = val(args[1])
+    i = n_add(d.fields[0], t) if m.group(1) == 'checked_add_signed' else n_sub(d.fields[0], t)
+    if ex.branch(dt_in_range(i), 'DateTime stays in range'):
+        return some(ex, mk_datetime(i, d.fields[1]))
+    return none(ex)
+
+
+@model(r'^<DateTime<.*> as Sub(<.*>)?>::sub$')
+def m_dt_sub(ex, m, args, callee):
+    a, b = val(args[0]), val(args[1])
+    if isinstance(b, Struct) and b.name == 'DateTime':
+        # signed_duration_since: always representable (DateTime range << TimeDelta range)
+        return n_sub(a.fields[0], b.fields[0])
+    raise Unmodelled('DateTime - %r' % (b,))
+
+
+@model(r'^DateTime::(with_timezone|fixed_offset)$')
+def m_dt_with_tz(ex, m, args, callee):
+    d = val(args[0])
+    if m.group(1) == 'fixed_offset':
+        return mk_datetime(d.fields[0], d.fields[1])
+    return mk_datetime(d.fields[0], dup(val(args[1])))
+
+
+@model(r'^DateTime::(offset|timezone)$')
+def m_dt_offset(ex, m, args, callee):
+    r = innermost_ref(args[0])
+    if m.group(1) == 'offset':
+        return Ref(r.cell, r.path + (1,))
+    return dup(load(r).fields[1])
+
+
+@model(r'^FixedOffset::(east_opt|west_opt)$')
+def m_fixed_offset(ex, m, args, callee):
+    s = args[0]
+    okc = simp(z3.And(zint(s) > -86400, zint(s) < 86400)) if not is_conc(s) else (-86400 < s < 86400)
+    if ex.branch(okc, 'offset within +-24h'):
+        return some(ex, Struct('FixedOffset', [s if m.group(1) == 'east_opt' else n_neg(s)]))
+    return none(ex)
